@@ -192,6 +192,9 @@ let hist lineno (f : string array) =
     hist_state := { !hist_state with M.hs_up = M.uinit; M.hs_utbl = [] }; print_string "SKIP\n"
   | "REOPENFAIL" -> Printf.printf "FAIL\t%d\tmodel=-\tspec=store-does-not-reopen\t%s\n" lineno (raw_of_hex f.(2))
   | "NOMODEL" -> hist_nomodel := true; print_string "SKIP\n"
+  (* verdicts of oracles evaluated in the harness (clauses that need no model state) *)
+  | "GOOD" -> print_string "OK\n"
+  | "BAD" -> Printf.printf "FAIL\t%d\tmodel=-\tspec=%s\n" lineno (String.map (fun c -> if c = ' ' || c = '\t' then '-' else c) (raw_of_hex f.(2)))
   | "FRAME" ->
     let allowed = List.map bytes_of_hex (split_on ',' f.(2)) in
     let refused = bool_of_field f.(3) in
